@@ -185,3 +185,19 @@ def polarity_of(text):
         t_ = text.replace("(", "").replace(")", "")
         return 1 if s_ == t_ else -1 if s_ == "!" + t_ else 0
     return atom
+
+
+def branches_when(root, text, value):
+    """The blocks that run exactly when the boolean expression `text` has `value`, for every `if` testing it:
+    `if text {T} else {E}` -> T for True, E for False;  `if !text {T} else {E}` -> E for True, T for False (missing else -> skipped)."""
+    from synq import walk
+    at = polarity_of(text)
+    out = []
+    for n in walk(root):
+        if n.get("k") == "if":
+            pol = at(n["c"])
+            if pol:
+                blk = n["t"] if (pol > 0) == value else n.get("e")
+                if blk is not None:
+                    out.append(blk)
+    return out
